@@ -179,5 +179,18 @@ theorem readKeys_nil (cfg : Cfg) (st : InSt) (h : InReady st) : readKeys cfg st 
   rw [List.append_nil, scan_of_none h.1]
   simp [feed_nil cfg _ h.2]
 
+/-- decoding `a` then `b` (carrying the undecoded tail over) = decoding `a ++ b` at once -/
+theorem decode_append_aux (buf a b : Bytes) :
+    decode buf (a ++ b) =
+      ((decode buf a).1 ++ (decode (decode buf a).2 b).1, (decode (decode buf a).2 b).2) := by
+  unfold decode
+  rw [← List.append_assoc, scan_append']
+
+/-- two reads delivering `a` then `b` = one read delivering `a ++ b` -/
+theorem readKeys_append_aux (cfg : Cfg) (st : InSt) (a b : Bytes) :
+    readKeys cfg st (a ++ b) = readKeys cfg (readKeys cfg st a) b := by
+  unfold readKeys
+  rw [decode_append_aux]
+  simp [feed_append_aux]
 
 end Ptk.C03.Utf8
